@@ -1112,8 +1112,8 @@ def proximal_convex_conj_l1(space, lam=1, g=None):
 
             # diff = x - sig * g
             if g is not None:
-                diff = self.domain.element()
-                diff.lincomb(1, x, -self.sigma, g)
+                # `sigma` can be a scalar or a space element
+                diff = x - self.sigma * g
             else:
                 if x is out:
                     # Handle aliased `x` and `out`
